@@ -4,3 +4,6 @@ import Props.C13
 #print axioms C13.column_ascii
 #print axioms C13.lineno_col_roundtrip
 #print axioms C13.lines_partition
+#print axioms C13.charnos_inside
+#print axioms C13.trim_preserves_nonblank
+#print axioms C13.lookbehind_and_indent
